@@ -236,6 +236,30 @@ def _input_keyed(fn, node):
     return any(n in _LOOKUPS for n in names)
 
 
+def _deciding_exprs(fn, node):
+    """scrutinees / conditions of the `match`, `if` and `let .. else` constructs enclosing a site inside its function"""
+    nodes = fn.nodes()
+    idx = None
+    for i, (n, _par) in enumerate(nodes):
+        if n is node:
+            idx = i
+            break
+    out = []
+    if idx is None:
+        return out
+    p = nodes[idx][1]
+    while p >= 0:
+        n = nodes[p][0]
+        if n.get("k") == "Match" and isinstance(n.get("scrut"), dict):
+            out.append(n["scrut"])
+        elif n.get("k") == "If" and isinstance(n.get("cond"), dict):
+            out.append(n["cond"])
+        elif n.get("k") in ("Let", "LetElse", "Local") and isinstance(n.get("init"), dict) and n.get("els") is not None:
+            out.append(n["init"])
+        p = nodes[p][1]
+    return out
+
+
 def _entries(P, R, rule, loader=True):
     """public entry points; one that was renamed or removed makes its part of the inventory undecided, not the whole rule"""
     ents = []
@@ -330,6 +354,15 @@ def r08a(P, R):
                 R.undecided("R08-a", "unreviewed-invariant:" + skey, "new `%s` (%s) in %s states a local invariant (no keyed look-up or parse of "
                             "input behind it); not in the panic table, not decided" % (kind, what, p), loc=loc)
                 continue
+            if kind in ("panic", "unreachable", "todo", "unimplemented"):
+                # `match x { A => .., B => .., _ => unreachable!() }`: the site is reached when the decision above it falls through.
+                # It is an input-reachable panic this inventory can point at only when that decision reads the result of a look-up
+                # keyed by data or of parsing text; a fall-through arm over a value of the code's own making is a local invariant
+                dec = _deciding_exprs(P.fns[p], node)
+                if dec and not any(_input_keyed(P.fns[p], e) for e in dec):
+                    R.undecided("R08-a", "unreviewed-invariant:" + skey, "new `%s!` (%s) in %s closes a decision over a value that is not the result of a "
+                                "keyed look-up or a parse of input; not in the panic table, not decided" % (kind, what, p), loc=loc)
+                    continue
             R.violated("R08-a", "unreviewed:" + skey, "unreviewed panic path: `%s` (%s) in %s is reachable from a public entry point and has no "
                        "justification in the panic table" % (kind, what, p), loc=loc)
             continue
@@ -676,6 +709,7 @@ def r08c(P, R):
                         "bound is not a char boundary (panic) or the slice is the wrong text" % f.path, loc=f.loc())
     R.floor("R08-c", "string slice sites", nslices, 2)
     _same_string_offsets(P, R)
+    _ordered_bounds(P, R)
     # skip_chars: byte offset from len_utf8
     sk = P.fn("nitrogql_utils::chars::skip_chars")
     ms = [c["method"] for c in sk.walk() if c.get("k") == "MethodCall"]
@@ -753,14 +787,95 @@ def _offset_sources(P, fn, pv, bound, depth=0, seen=None):
     return out
 
 
-def _same_string_offsets(P, R):
+_SEARCHES = ("find", "rfind", "position", "rposition", "find_map")
+
+
+def _search_calls(pv, bound, seen=None):
+    """the search calls (`find`, `rfind`, `position`, ...) whose result feeds a slice bound, through local bindings"""
+    seen = seen if seen is not None else set()
+    out = []
+    todo = [bound]
+    while todo:
+        e = todo.pop()
+        if isinstance(e, list):
+            todo.extend(e)
+            continue
+        if not isinstance(e, dict):
+            continue
+        if e.get("k") == "MethodCall" and e["method"] in _SEARCHES:
+            out.append(e)           # what the search was applied to is not part of the bound's own history
+            continue
+        if e.get("k") == "Path" and "local" in e and e["local"] not in seen:
+            seen.add(e["local"])
+            for src, _ in pv.src.get(e["local"], []):
+                if src is not None and not (src.get("k") == "Tup" and src.get("t") == "()"):
+                    todo.append(src)
+        for v in e.values():
+            if isinstance(v, (dict, list)):
+                todo.append(v)
+    return out
+
+
+def _ordered_bounds(P, R, controls=False):
+    """`s[lo..hi]` panics when lo > hi.  Where both bounds are results of *searches on the sliced string itself* (two `find`s for two
+    patterns, say), nothing orders them unless the second search starts where the first ended (`s[lo..].find(..)`) or the code
+    compares them: a closing delimiter that occurs before the opening one makes the range run backwards."""
+    n = 0
+    for f in P.fns.values():
+        if "::tests" in f.path or f.derived or (f.crate == "selfcheck") != controls:
+            continue
+        pv = None
+        for x in f.walk():
+            if not (x.get("k") == "Index" and ("str" in str(x["e"].get("t", "")) or "String" in str(x["e"].get("t", ""))) and "Vec<" not in str(x["e"].get("t", ""))):
+                continue
+            idx = x["idx"]
+            if not (idx.get("k") == "Struct" and str(idx.get("adt", "")).endswith("range::Range")):
+                continue
+            flds = {fl["name"]: fl["e"] for fl in idx.get("fields", [])}
+            if "start" not in flds or "end" not in flds:
+                continue
+            pv = pv or Prov(f)
+            r0 = _root_local(x["e"])
+            if r0 is None:
+                continue
+            lo = [c for c in _search_calls(pv, flds["start"]) if c.get("recv", {}).get("k") == "Path" and c["recv"].get("local") == r0]
+            hi = [c for c in _search_calls(pv, flds["end"]) if c.get("recv", {}).get("k") == "Path" and c["recv"].get("local") == r0]
+            if not lo or not hi:
+                continue
+            n += 1
+            key = "str-range-ordered:%s" % short(f.path)
+            if any(a is b for a in lo for b in hi):
+                R.holds("R08-c", key, "both bounds come from one search", loc=f.loc())
+                continue
+            lo_l = {y["local"] for y in subnodes(flds["start"]) if y.get("k") == "Path" and "local" in y}
+            hi_l = {y["local"] for y in subnodes(flds["end"]) if y.get("k") == "Path" and "local" in y}
+            compared = False
+            for y in f.walk():
+                if y.get("k") == "Binary" and y.get("op") in ("<", "<=", ">", ">="):
+                    ls = {z["local"] for z in subnodes(y) if z.get("k") == "Path" and "local" in z}
+                    if ls & lo_l and ls & hi_l:
+                        compared = True
+                elif y.get("k") == "MethodCall" and y.get("method") in ("get", "checked_sub", "saturating_sub", "cmp", "min", "max", "clamp"):
+                    ls = {z["local"] for z in subnodes(y) if z.get("k") == "Path" and "local" in z}
+                    if ls & lo_l and ls & hi_l:
+                        compared = True
+            if compared:
+                R.holds("R08-c", key, "the two bounds are compared before the cut", loc=f.loc())
+            else:
+                R.violated("R08-c", key, "%s slices a string from the result of one search to the result of another search of the same string "
+                           "(`%s` .. `%s`), and nothing orders the two: when the second pattern occurs before the first, the range runs backwards "
+                           "and the slice panics" % (f.path, lo[0]["method"], hi[0]["method"]), loc=f.loc())
+    R.count("str_range_sites", n)
+
+
+def _same_string_offsets(P, R, controls=False):
     """A byte offset is only a valid cut point of the string it was computed on.  Wherever a `&str` is sliced or split at an offset,
     the offset-producing operations behind the bound (`find`, `char_indices`, `len`, a helper from &str to indices, ...) must have been
     applied to that same string; an offset computed on *another* string (the minimum indentation of the neighbouring lines, say) is
     not a char boundary here as soon as the two strings differ in multi-byte characters."""
     n = 0
     for f in P.fns.values():
-        if "::tests" in f.path or f.derived or f.crate == "selfcheck":
+        if "::tests" in f.path or f.derived or (f.crate == "selfcheck") != controls:
             continue
         pv = None
         for x in f.walk():
@@ -832,6 +947,16 @@ def r08pc(P, R):
     kinds = sorted(k for _, k, w, l, n in site_keys(f))
     R.check("R08-pc", "control:panic-kinds", kinds == ["index", "panic", "unwrap"], "panic!/index/unwrap controls detected",
             "self-check: the panic inventory sees %s in the control function (expected index, panic, unwrap)" % kinds)
+    # the string-cut clauses have no violating instance in /repo: the control crate keeps one of each, and a correct twin
+    Rc = harness.Reporter("C08", "control")
+    _same_string_offsets(SC, Rc, controls=True)
+    _ordered_bounds(SC, Rc, controls=True)
+    got = {r["key"]: r["status"] for r in Rc.results}
+    want = {"R08-c:str-range-ordered:selfcheck::range_two_searches": "VIOLATED", "R08-c:str-range-ordered:selfcheck::range_chained_searches": "HOLDS",
+            "R08-c:str-offset-same-string:selfcheck::cut_at_foreign_offset": "VIOLATED"}
+    seen = {k: str(got.get(k)).upper() for k in want}
+    R.check("R08-pc", "control:string-cuts", all(seen[k].startswith(v) for k, v in want.items()), "the string-cut clauses report their controls and accept the correct twin",
+            "self-check: string-cut controls came out as %s (expected %s)" % (seen, want))
 
 
 RULES = [("R08-pc", r08pc), ("R08-a", r08a), ("R08-b", r08b), ("R08-c", r08c)]
